@@ -6,7 +6,7 @@
      K <keyhex> <sid:type,...|->                   prism key, in ExpandSearch order
      Y <id> <hex>                                  syllable string
      O script <wordcompl> <max_homophones>         options
-     O table <completion> <sentence> <delimshex>
+     O table <completion> <sentence> <delimshex> <max_homographs>
      S <n> <il> <E> <I> <oracle>                   script case: the syllable graph as handed over + the observed sentence
          E = start=end/sid:type:endpos:cred:corr,..|end/..;start=..   ('-' when empty)
          I = start=sid/end:type:cred:corr,..|sid/..;start=..          ('-' when empty)
@@ -57,6 +57,7 @@ let mh = ref 1
 let completion = ref false
 let sentence_on = ref false
 let delims : n list ref = ref []
+let mhg = ref 1
 
 let final_table () : node list =
   List.map (fun nd -> match List.assoc_opt nd.n_code !tails with
@@ -119,7 +120,7 @@ let () =
         prism_ := !prism_ @ [(text_of_hex k, sps)]
       | ["Y"; id; h] -> syls := !syls @ [(nat (ios id), text_of_hex h)]
       | ["O"; "script"; wc; m] -> kind := "script"; wordcompl := wc = "1"; mh := ios m
-      | ["O"; "table"; c; s; d] -> kind := "table"; completion := c = "1"; sentence_on := s = "1"; delims := text_of_hex d
+      | ["O"; "table"; c; s; d; m] -> kind := "table"; completion := c = "1"; sentence_on := s = "1"; delims := text_of_hex d; mhg := ios m
       | ["S"; n; il; e; i; orc] ->
         let g = { g_input_len = nat (ios n); g_ilen = nat (ios il); g_edges = parse_edges e; g_indices = parse_indices i } in
         let t = final_table () in
@@ -137,9 +138,9 @@ let () =
         let sent = parse_sentence orc in
         let asked = ref false in
         let poet _ _ = asked := true; sent in
-        let cands = table_query poet !completion !sentence_on !prism_ !syls t !delims input in
+        let cands = table_query poet !completion !sentence_on (nat !mhg) !prism_ !syls t !delims input in
         let total = nat (List.length input) in
-        let wg = if !asked then table_wgraph !prism_ !syls t !delims input else [] in
+        let wg = if !asked then table_wgraph (nat !mhg) !prism_ !syls t !delims input else [] in
         let o = match sent with None -> "-" | Some s -> if !asked && wg_path_ok wg O total s then "1" else "0" in
         let p = if !asked then (if wg_has_path wg total then "1" else "0") else "-" in
         print_result !asked o p cands
